@@ -116,10 +116,8 @@ class Ctx:
                     b.path in as_value or len(b.blocks) > 400:
                 continue
             ret = b.j.get('ret_ty', '')
-            if ret.startswith('base::planner::Path<') and (self.fn(b).loops() or any(
-                    (t['func'].get('path') or '') in ('std::iter::successors', 'std::iter::from_fn', 'std::iter::Iterator::collect')
-                    for _bi, t in b.calls())):
-                continue                                            # path extractor (walks the links itself, as a loop or lazily)
+            if ret.startswith('base::planner::Path<') and self._walks(b):
+                continue                                            # path extractor (walks the links itself or through a private helper)
             ptys = [b.local_ty(i) for i in range(1, b.arg_count + 1)]
             if ret == 'f64' and any(nt in t for nt in node_tys for t in ptys):
                 continue                                            # cost function
@@ -139,6 +137,20 @@ class Ctx:
                         pass
             out.append(b.path)
         return sorted(out)
+
+    def _walks(self, b, depth=0):
+        """the body (or a function of the crate it calls, transitively) contains a loop or a lazy walk (successors / from_fn / collect)"""
+        if self.fn(b).loops() or any((t['func'].get('path') or '') in ('std::iter::successors', 'std::iter::from_fn', 'std::iter::Iterator::collect')
+                                     for _bi, t in b.calls()):
+            return True
+        if depth >= 3:
+            return False
+        for pth in self.local_callees(b):
+            cb = b.crate.body(pth)
+            if cb is not None and cb is not b and cb.kind in ('Fn', 'AssocFn') and not cb.j.get('ret_ty', '').startswith('base::planner::Path<') and \
+                    self._walks(cb, depth + 1):
+                return True
+        return False
 
     def binding_inline_policy(self, crate):
         """private free functions of a binding crate (helpers such as a shared result converter); methods of the exported
